@@ -608,11 +608,28 @@ func (f *File) ReadAt(p []byte, off int64) (n int, err error) {
 		return 0, config.ErrIsDirectory
 	}
 
+	// Positioned reads leave the cursor where it was
+	pos, err := f.Seek(0, io.SeekCurrent)
+	if err != nil {
+		return 0, err
+	}
+
 	if _, err := f.Seek(off, io.SeekStart); err != nil {
 		return 0, err
 	}
 
-	return f.Read(p)
+	n, err = f.Read(p)
+
+	if _, serr := f.Seek(pos, io.SeekStart); serr != nil && err == nil {
+		err = serr
+	}
+
+	// `io.ReaderAt` requires an error whenever fewer than len(p) bytes are returned
+	if err == nil && n < len(p) {
+		err = io.EOF
+	}
+
+	return n, err
 }
 
 // Read/write operations
